@@ -216,7 +216,12 @@ func newEnv(t Tier, tag string) (*Env, func()) {
 	_ = os.MkdirAll(dir, 0o755)
 	exe, _ := os.Executable()
 
-	return &Env{Tier: t, Scratch: dir, Exe: exe}, func() { _ = os.RemoveAll(dir) }
+	return &Env{Tier: t, Scratch: dir, Exe: exe}, func() {
+		_ = os.RemoveAll(dir)
+		// memory-backed twin of the scratch directory (checkpoint checks put the
+		// SQLite files of their simulations there)
+		_ = os.RemoveAll(filepath.Join("/dev/shm", "verif-"+filepath.Base(dir)))
+	}
 }
 
 // safeExec runs one case, turning a panic into a violation of oracle "panic".
